@@ -15,7 +15,7 @@ pub fn def() -> PropDef {
     PropDef {
         info: PropInfo {
             id: "C07",
-            rule: "call-graph programs: 1-6 functions laid out in a generated order after main (forward, backward and zero displacements (`callx +0`, whose callee is the code following the call), optional padding up to 33k instructions between them); every function folds (its r10 - caller's r10) and the incoming r1-r4 into the accumulator r0, loads distinctive values into r6-r9, spills r10, writes stack slots at generated offsets of its own frame, optionally calls a helper with a small id (so that pc+1+id is a later executed instruction), optionally calls another function (any function, itself included) while a counter argument is non-zero (nesting depth 0-10), and after the return folds r6-r9, r1-r4, its reloaded stack slots and (r10 - spilled r10). Configurations: no calculator, or a stack-usage calculator driven by a generated table entry-pc -> u16 from {0,8,16,24,56,64,256,504,512,65535,random} with a distinctive default for non-entry pcs. Oracle: the reference model's C07 semantics vs the interpreter (value, or Err for depth > 8 / stack accesses outside the 512 bytes) and vs the x86-64 JIT whenever the model returns a value. Non-trivial = at least one executed local call whose callee writes the stack or r6-r9 (always true when a call executes); distinct by hash.",
+            rule: "call-graph programs: 1-6 functions laid out in a generated order after main (forward, backward and zero displacements (`callx +0`, whose callee is the code following the call), optional padding up to 33k instructions between them); every function folds (its r10 - caller's r10) and the incoming r1-r4 into the accumulator r0, loads distinctive values into r6-r9, spills r10, writes stack slots at generated offsets of its own frame, optionally calls a helper with a small id (so that pc+1+id is a later executed instruction), optionally calls another function (any function, itself included) while a counter argument is non-zero (nesting depth 0-10), optionally ends with such a call in tail position (call immediately followed by exit; half of them self-recursive), and after the return folds r6-r9, r1-r4, its reloaded stack slots and (r10 - spilled r10). Configurations: no calculator, or a stack-usage calculator driven by a generated table entry-pc -> u16 from {0,8,16,24,56,64,256,504,512,65535,random} with a distinctive default for non-entry pcs. Oracle: the reference model's C07 semantics vs the interpreter (value, or Err for depth > 8 / stack accesses outside the 512 bytes) and vs the x86-64 JIT whenever the model returns a value. Non-trivial = at least one executed local call whose callee writes the stack or r6-r9 (always true when a call executes); distinct by hash.",
             assumptions: &["the JIT has no run-time error channel: the 'yields an error' clauses are checked on the interpreter only (DESIGN 6.6)", "stack addresses within 1 MiB of the eBPF stack belong to no other region of the VM"],
         },
         run,
@@ -35,6 +35,9 @@ pub struct CFunc {
     frame: u16,
     /// also perform `callx +0` (the callee is the code that follows the call itself)
     call_next: bool,
+    /// a last conditional call that is immediately followed by `exit` (tail position); even
+    /// selector = the function itself
+    tail_call: Option<u8>,
 }
 
 #[derive(Clone, Debug)]
@@ -59,8 +62,9 @@ fn cfunc() -> impl Strategy<Value = CFunc> {
         prop_oneof![4 => Just(0u16), 1 => 1u16..6],
         prop_oneof![6 => prop::sample::select(vec![0u16, 8, 16, 24, 32, 40, 48, 56, 64]), 1 => prop::sample::select(vec![256u16, 504, 512, 65535, 513, 255]), 1 => any::<u16>(), 2 => (1u16..12).prop_map(|k| k * 8)],
         prop::bool::weighted(0.12),
+        prop_oneof![4 => Just(None), 1 => any::<u8>().prop_map(Some)],
     )
-        .prop_map(|(vals, slots, call, second_call, helper, pad, frame, call_next)| CFunc { vals, slots, call, second_call, helper, pad, frame, call_next })
+        .prop_map(|(vals, slots, call, second_call, helper, pad, frame, call_next, tail_call)| CFunc { vals, slots, call, second_call, helper, pad, frame, call_next, tail_call })
 }
 
 pub fn cprog() -> impl Strategy<Value = CProg> {
@@ -215,6 +219,17 @@ pub fn lower(p: &CProg) -> ExecCase {
             }
             out.push(Insn::new(alu_opc(true, ALU_MOV, true), 5, 10, 0, 0));
         }
+        if let Some(sel) = f.tail_call {
+            // if (r1 != 0) { r1 -= 1; r5 = r10; call target; exit }  - nothing runs between the
+            // callee's return and this function's own exit
+            let target = if sel % 2 == 0 || n == 1 { fi } else { 1 + (sel as usize / 2) % (n - 1) };
+            out.push(Insn::new(jmp_opc(true, J_EQ, false), 1, 0, 4, 0));
+            out.push(Insn::new(alu_opc(true, ALU_ADD, false), 1, 0, 0, -1));
+            out.push(Insn::new(alu_opc(true, ALU_MOV, true), 5, 10, 0, 0));
+            fixups.push((out.len(), target));
+            out.push(Insn::new(CALL, 0, 1, 0, 0));
+            out.push(Insn::new(EXIT, 0, 0, 0, 0));
+        }
         out.push(Insn::new(EXIT, 0, 0, 0, 0));
     }
     for (at, target) in fixups {
@@ -258,6 +273,12 @@ pub fn check(runner: &mut Runner, case: &mut ExecCase, st: Option<&mut Stats>) -
         let prog = isa::decode_prog(&case.prog);
         if prog.iter().any(|x| x.opc == CALL && x.src == 1 && x.imm < 0) {
             st.class("has-backward-call");
+        }
+        if prog.windows(2).any(|w| w[0].opc == CALL && w[0].src == 1 && w[1].opc == EXIT) {
+            st.class("has-call-in-tail-position");
+            if prog.iter().enumerate().any(|(pc, x)| x.opc == CALL && x.src == 1 && x.imm < 0 && prog.get(pc + 1).map(|y| y.opc == EXIT).unwrap_or(false)) {
+                st.class("has-backward-call-in-tail-position");
+            }
         }
         if prog.len() > 32_000 {
             st.class("long-displacement");
